@@ -289,4 +289,485 @@ theorem lookup_run (zk : Bytes) (w : ServiceUris) (hw : Inv w) (hz : w.zkPath = 
         cases ev.change <;> simp [ih]
       · simp [hn, ih]
 
+/-! ### snapshots as values -/
+
+theorem snapshots_length (w : ServiceUris) (h : List Event) : (snapshots w h).length = h.length + 1 := by
+  induction h generalizing w with
+  | nil => rfl
+  | cons e r ih => simp [snapshots, ih]
+
+theorem snapshots_getElem? (w : ServiceUris) (h : List Event) (i : Nat) (hi : i ≤ h.length) :
+    (snapshots w h)[i]? = some (runUpdates w (h.take i)) := by
+  induction h generalizing w i with
+  | nil =>
+    have : i = 0 := by simpa using hi
+    subst this; rfl
+  | cons e r ih =>
+    cases i with
+    | zero => rfl
+    | succ j =>
+      simp only [snapshots, List.getElem?_cons_succ, List.take_succ_cons, runUpdates, List.foldl_cons]
+      exact ih _ j (by simpa using hi)
+
+theorem snapshots_append (w : ServiceUris) (h h' : List Event) :
+    (snapshots w (h ++ h')).take (h.length + 1) = snapshots w h := by
+  induction h generalizing w with
+  | nil => cases h' <;> simp [snapshots]
+  | cons e r ih => simp only [List.cons_append, snapshots, List.length_cons, List.take_succ_cons, ih]
+
+/-! ### the heap-level model -/
+
+theorem handleH_spec (H : Heap) (a : Nat) (e : Event) (w : ServiceUris) (hg : H.get? a = some w) :
+    ∃ H' a', handleUriUpdateH H a e = some (H', a') ∧ H'.get? a' = some (handleUriUpdate w e) ∧
+      H.size ≤ H'.size ∧ ∀ b, b < H.size → H'.get? b = H.get? b := by
+  have alloc_mod : ∀ (f : ServiceUris → ServiceUris),
+      ((H.alloc w.copy).1.modify (H.alloc w.copy).2 f).get? (H.alloc w.copy).2 = some (f w.copy) ∧
+      H.size ≤ ((H.alloc w.copy).1.modify (H.alloc w.copy).2 f).size ∧
+      ∀ b, b < H.size → ((H.alloc w.copy).1.modify (H.alloc w.copy).2 f).get? b = H.get? b := by
+    intro f
+    simp only [Heap.alloc, Heap.modify, Heap.get?, Heap.size, List.getElem?_modify,
+      List.length_modify, List.length_append, List.length_cons, List.length_nil]
+    refine ⟨by simp, by omega, ?_⟩
+    intro b hb
+    have : ¬ H.cells.length = b := by omega
+    simp [this, List.getElem?_append_left hb]
+  simp only [handleUriUpdateH, hg, handleUriUpdate]
+  by_cases hp : trimPrefix e.path w.zkPath = []
+  · exact ⟨H, a, by simp [hp], by simp [hp, hg], Nat.le_refl _, fun _ _ => rfl⟩
+  · simp only [hp, if_false]
+    cases hd : e.data with
+    | none =>
+      obtain ⟨h1, h2, h3⟩ := alloc_mod (fun c => { c with uris := mapDelete (trimPrefix e.path w.zkPath) c.uris })
+      exact ⟨_, _, rfl, h1, h2, h3⟩
+    | some pl =>
+      cases pl with
+      | malformed => exact ⟨H, a, rfl, hg, Nat.le_refl _, fun _ _ => rfl⟩
+      | uri u =>
+        by_cases hl : u.weights.length = 0
+        · exact ⟨H, a, by simp [hl], by simp [hl, hg], Nat.le_refl _, fun _ _ => rfl⟩
+        · obtain ⟨h1, h2, h3⟩ := alloc_mod (fun c => { c with uris := mapSet (trimPrefix e.path w.zkPath) u c.uris })
+          refine ⟨_, (H.alloc w.copy).2, by simp only [hl, if_false], by simp only [hl, if_false]; exact h1, h2, h3⟩
+
+theorem runH_spec (H : Heap) (a : Nat) (h : List Event) (w : ServiceUris) (hg : H.get? a = some w) :
+    ∃ H' a', runUpdatesH H a h = some (H', a') ∧ H'.get? a' = some (runUpdates w h) ∧
+      H.size ≤ H'.size ∧ ∀ b, b < H.size → H'.get? b = H.get? b := by
+  induction h generalizing H a w with
+  | nil => exact ⟨H, a, rfl, hg, Nat.le_refl _, fun _ _ => rfl⟩
+  | cons e r ih =>
+    obtain ⟨H1, a1, h1, g1, s1, f1⟩ := handleH_spec H a e w hg
+    obtain ⟨H2, a2, h2, g2, s2, f2⟩ := ih H1 a1 (handleUriUpdate w e) g1
+    refine ⟨H2, a2, ?_, ?_, Nat.le_trans s1 s2, ?_⟩
+    · simp only [runUpdatesH, h1, h2]
+    · simpa [runUpdates] using g2
+    · intro b hb
+      rw [f2 b (Nat.lt_of_lt_of_le hb s1), f1 b hb]
+
+theorem runH_append (H : Heap) (a : Nat) (h h' : List Event) :
+    runUpdatesH H a (h ++ h') =
+      match runUpdatesH H a h with
+      | none => none
+      | some (H', a') => runUpdatesH H' a' h' := by
+  induction h generalizing H a with
+  | nil => simp [runUpdatesH]
+  | cons e r ih =>
+    simp only [List.cons_append, runUpdatesH]
+    cases handleUriUpdateH H a e with
+    | none => rfl
+    | some p => obtain ⟨H1, a1⟩ := p; exact ih H1 a1
+
+/-! ### which entries resolution sees -/
+
+theorem mem_iterSeq (m : UriMap) (hm : (keys m).Nodup) (e : Entry) :
+    e ∈ iterSeq m ↔ ∃ n u, mapLookup n m = some u ∧ e ∈ u.weights := by
+  simp only [iterSeq, List.mem_flatMap]
+  constructor
+  · rintro ⟨⟨k, u⟩, hkv, he⟩
+    exact ⟨k, u, (mem_iff_mapLookup m hm k u).1 hkv, he⟩
+  · rintro ⟨n, u, hl, he⟩
+    exact ⟨(n, u), (mem_iff_mapLookup m hm n u).2 hl, he⟩
+
+/-! ### selection: the two passes -/
+
+theorem totalWeight_eq_weightOf (f : Host → Bool) (es : List Entry) :
+    totalWeight f es = Spec.weightOf f es := by
+  induction es with
+  | nil => rfl
+  | cons e r ih =>
+    obtain ⟨h, w⟩ := e
+    simp only [totalWeight, Spec.weightOf, List.filter_cons] at ih ⊢
+    by_cases hf : f h = true
+    · simp [hf, ih]
+    · simp [hf, ih]
+
+theorem totalWeight_perm (f : Host → Bool) {a b : List Entry} (h : a.Perm b) :
+    totalWeight f a = totalWeight f b := by
+  rw [totalWeight_eq_weightOf, totalWeight_eq_weightOf]
+  exact ((h.filter _).map _).sum_nat
+
+theorem totalWeight_zero_of_none (f : Host → Bool) (es : List Entry)
+    (h : ∀ e ∈ es, f e.1 = false) : totalWeight f es = 0 := by
+  induction es with
+  | nil => rfl
+  | cons e r ih =>
+    obtain ⟨h0, w⟩ := e
+    have := h (h0, w) (by simp)
+    simp only at this
+    simp only [totalWeight, this]
+    exact ih (fun e he => h e (List.mem_cons_of_mem _ he))
+
+theorem exists_of_totalWeight_pos (f : Host → Bool) (es : List Entry) (h : 0 < totalWeight f es) :
+    ∃ e ∈ es, f e.1 = true ∧ 0 < e.2 := by
+  induction es with
+  | nil => simp [totalWeight] at h
+  | cons e r ih =>
+    obtain ⟨h0, w⟩ := e
+    simp only [totalWeight] at h
+    by_cases hf : f h0 = true
+    · simp only [hf, if_true] at h
+      by_cases hw : 0 < w
+      · exact ⟨(h0, w), by simp, hf, hw⟩
+      · obtain ⟨e, he, h1, h2⟩ := ih (by omega)
+        exact ⟨e, List.mem_cons_of_mem _ he, h1, h2⟩
+    · simp only [hf] at h
+      obtain ⟨e, he, h1, h2⟩ := ih h
+      exact ⟨e, List.mem_cons_of_mem _ he, h1, h2⟩
+
+theorem totalWeight_pos_of_exists (f : Host → Bool) (es : List Entry)
+    (h : ∃ e ∈ es, f e.1 = true ∧ 0 < e.2) : 0 < totalWeight f es := by
+  induction es with
+  | nil => simp at h
+  | cons e r ih =>
+    obtain ⟨h0, w⟩ := e
+    obtain ⟨e', he', h1, h2⟩ := h
+    simp only [totalWeight]
+    rcases List.mem_cons.1 he' with heq | hin
+    · subst heq
+      simp only at h1 h2
+      simp only [h1, if_true]; omega
+    · have := ih ⟨e', hin, h1, h2⟩
+      split <;> omega
+
+theorem chooseLoop_mem (f : Host → Bool) (q : Nat) :
+    ∀ (it : List Entry) (rw : Int) (h : Host), chooseLoop f q it rw = some h →
+      ∃ w, (h, w) ∈ it ∧ f h = true
+  | [], _, _, hc => by simp [chooseLoop] at hc
+  | (h0, w0) :: r, rw, h, hc => by
+    simp only [chooseLoop] at hc
+    by_cases hf : f h0 = true
+    · simp only [hf, if_true] at hc
+      by_cases hs : rw - ((q * w0 : Nat) : Int) ≤ 0
+      · simp only [hs, if_true, Option.some.injEq] at hc
+        subst hc
+        exact ⟨w0, by simp, hf⟩
+      · simp only [hs, if_false] at hc
+        obtain ⟨w, hw, hfh⟩ := chooseLoop_mem f q r _ h hc
+        exact ⟨w, List.mem_cons_of_mem _ hw, hfh⟩
+    · simp only [hf] at hc
+      obtain ⟨w, hw, hfh⟩ := chooseLoop_mem f q r _ h hc
+      exact ⟨w, List.mem_cons_of_mem _ hw, hfh⟩
+
+theorem chooseLoop_none_of_gt (f : Host → Bool) (q : Nat) :
+    ∀ (it : List Entry) (rw : Int), ((q * totalWeight f it : Nat) : Int) < rw →
+      chooseLoop f q it rw = none
+  | [], _, _ => rfl
+  | (h0, w0) :: r, rw, hgt => by
+    simp only [chooseLoop, totalWeight] at hgt ⊢
+    by_cases hf : f h0 = true
+    · simp only [hf, if_true] at hgt ⊢
+      rw [Nat.mul_add] at hgt
+      have hs : ¬ (rw - ((q * w0 : Nat) : Int) ≤ 0) := by omega
+      simp only [hs, if_false]
+      exact chooseLoop_none_of_gt f q r _ (by omega)
+    · simp only [hf] at hgt ⊢
+      exact chooseLoop_none_of_gt f q r rw hgt
+
+theorem chooseLoop_none_of_no_eligible (f : Host → Bool) (q : Nat) :
+    ∀ (it : List Entry) (rw : Int), (∀ e ∈ it, f e.1 = false) → chooseLoop f q it rw = none
+  | [], _, _ => rfl
+  | (h0, w0) :: r, rw, hn => by
+    have h0f : f h0 = false := hn (h0, w0) (by simp)
+    simp only [chooseLoop, h0f]
+    exact chooseLoop_none_of_no_eligible f q r rw (fun e he => hn e (List.mem_cons_of_mem _ he))
+
+theorem chooseLoop_some_of_le (f : Host → Bool) (q : Nat) :
+    ∀ (it : List Entry) (rw : Int), rw ≤ ((q * totalWeight f it : Nat) : Int) →
+      (∃ e ∈ it, f e.1 = true) → chooseLoop f q it rw ≠ none
+  | [], _, _, he => by simp at he
+  | (h0, w0) :: r, rw, hle, he => by
+    simp only [chooseLoop, totalWeight] at hle ⊢
+    by_cases hf : f h0 = true
+    · simp only [hf, if_true] at hle ⊢
+      rw [Nat.mul_add] at hle
+      by_cases hs : rw - ((q * w0 : Nat) : Int) ≤ 0
+      · rw [if_pos hs]; simp
+      · simp only [hs, if_false]
+        have hle' : rw - ((q * w0 : Nat) : Int) ≤ ((q * totalWeight f r : Nat) : Int) := by omega
+        have hpos : 0 < totalWeight f r := by
+          apply Nat.pos_of_ne_zero
+          intro h0
+          rw [h0] at hle'
+          simp only [Nat.mul_zero] at hle'
+          omega
+        obtain ⟨e, hin, h1, _⟩ := exists_of_totalWeight_pos f r hpos
+        exact chooseLoop_some_of_le f q r _ hle' ⟨e, hin, h1⟩
+    · simp only [hf] at hle ⊢
+      obtain ⟨e, hin, h1⟩ := he
+      rcases List.mem_cons.1 hin with heq | hin'
+      · subst heq; exact absurd h1 hf
+      · exact chooseLoop_some_of_le f q r rw hle ⟨e, hin', h1⟩
+
+theorem chooseLoop_pos (f : Host → Bool) (q : Nat) :
+    ∀ (it : List Entry) (rw : Int) (h : Host), 0 < rw → chooseLoop f q it rw = some h →
+      ∃ w, (h, w) ∈ it ∧ f h = true ∧ 0 < w
+  | [], _, _, _, hc => by simp [chooseLoop] at hc
+  | (h0, w0) :: r, rw, h, hpos, hc => by
+    simp only [chooseLoop] at hc
+    by_cases hf : f h0 = true
+    · simp only [hf, if_true] at hc
+      by_cases hs : rw - ((q * w0 : Nat) : Int) ≤ 0
+      · simp only [hs, if_true, Option.some.injEq] at hc
+        subst hc
+        refine ⟨w0, by simp, hf, ?_⟩
+        apply Nat.pos_of_ne_zero
+        intro hz
+        rw [hz] at hs
+        simp only [Nat.mul_zero] at hs
+        omega
+      · simp only [hs, if_false] at hc
+        obtain ⟨w, hw, hfh, hwp⟩ := chooseLoop_pos f q r _ h (by omega) hc
+        exact ⟨w, List.mem_cons_of_mem _ hw, hfh, hwp⟩
+    · simp only [hf] at hc
+      obtain ⟨w, hw, hfh, hwp⟩ := chooseLoop_pos f q r _ h hpos hc
+      exact ⟨w, List.mem_cons_of_mem _ hw, hfh, hwp⟩
+
+/-- the loop and its position-returning twin agree -/
+theorem chooseLoop_eq_idx (f : Host → Bool) (q : Nat) :
+    ∀ (it : List Entry) (rw : Int),
+      chooseLoop f q it rw = (chooseLoopIdx f q it rw).bind (fun j => it[j]?.map Prod.fst)
+  | [], _ => rfl
+  | (h0, w0) :: r, rw => by
+    simp only [chooseLoop, chooseLoopIdx]
+    by_cases hf : f h0 = true
+    · simp only [hf, if_true]
+      by_cases hs : rw - ((q * w0 : Nat) : Int) ≤ 0
+      · rw [if_pos hs, if_pos hs]; simp
+      · simp only [hs, if_false]
+        rw [chooseLoop_eq_idx f q r]
+        cases chooseLoopIdx f q r (rw - ((q * w0 : Nat) : Int)) <;> simp
+    · have hf' : f h0 = false := by simpa using hf
+      simp only [hf', Bool.false_eq_true, if_false]
+      rw [chooseLoop_eq_idx f q r]
+      cases chooseLoopIdx f q r rw <;> simp
+
+/-- where the loop stops -/
+theorem chooseLoopIdx_at (f : Host → Bool) (q : Nat) (h : Host) (w : Nat) (post : List Entry) :
+    ∀ (pre : List Entry) (rw : Int),
+      chooseLoopIdx f q (pre ++ (h, w) :: post) rw = some pre.length ↔
+        (f h = true ∧ rw ≤ ((q * (totalWeight f pre + w) : Nat) : Int) ∧
+          (((q * totalWeight f pre : Nat) : Int) < rw ∨ ∀ e ∈ pre, f e.1 = false))
+  | [], rw => by
+    simp only [List.nil_append, chooseLoopIdx, List.length_nil, totalWeight, Nat.zero_add,
+      Nat.mul_zero]
+    by_cases hf : f h = true
+    · simp only [hf, if_true, true_and]
+      by_cases hs : rw - ((q * w : Nat) : Int) ≤ 0
+      · simp only [hs, if_true, true_iff]
+        exact ⟨by omega, Or.inr (by simp)⟩
+      · simp only [hs, if_false]
+        constructor
+        · intro hc
+          cases hx : chooseLoopIdx f q post (rw - ((q * w : Nat) : Int)) with
+          | none => simp at hc
+          | some j => simp at hc
+        · intro hc; omega
+    · simp only [hf]
+      constructor
+      · intro hc
+        cases hx : chooseLoopIdx f q post rw with
+        | none => simp [hx] at hc
+        | some j => simp [hx] at hc
+      · intro hc; exact absurd hc.1 (by simp)
+  | (h0, w0) :: pre, rw => by
+    simp only [List.cons_append, chooseLoopIdx, List.length_cons, totalWeight]
+    by_cases hf0 : f h0 = true
+    · simp only [hf0, if_true]
+      by_cases hs : rw - ((q * w0 : Nat) : Int) ≤ 0
+      · simp only [hs, if_true]
+        constructor
+        · intro hc; simp at hc
+        · rintro ⟨_, _, hlt | hall⟩
+          · rw [Nat.mul_add] at hlt; omega
+          · have := hall (h0, w0) (by simp)
+            simp only at this
+            rw [hf0] at this; exact absurd this (by simp)
+      · simp only [hs, if_false]
+        have ih := chooseLoopIdx_at f q h w post pre (rw - ((q * w0 : Nat) : Int))
+        have hmap : ∀ o : Option Nat, (o.map (· + 1) = some (pre.length + 1)) ↔ o = some pre.length := by
+          intro o; cases o <;> simp
+        rw [hmap, ih]
+        have e1 : q * (w0 + totalWeight f pre + w) = q * w0 + q * (totalWeight f pre + w) := by
+          rw [Nat.add_assoc, Nat.mul_add]
+        have e2 : q * (w0 + totalWeight f pre) = q * w0 + q * totalWeight f pre := Nat.mul_add _ _ _
+        rw [e1, e2]
+        constructor
+        · rintro ⟨h1, h2, h3⟩
+          refine ⟨h1, by omega, Or.inl ?_⟩
+          rcases h3 with h3 | h3
+          · omega
+          · rw [totalWeight_zero_of_none f pre h3]; simp only [Nat.mul_zero]; omega
+        · rintro ⟨h1, h2, h3⟩
+          refine ⟨h1, by omega, Or.inl ?_⟩
+          rcases h3 with h3 | h3
+          · omega
+          · have := h3 (h0, w0) (by simp)
+            simp only at this
+            rw [hf0] at this; exact absurd this (by simp)
+    · have hf0' : f h0 = false := by simpa using hf0
+      simp only [hf0', Bool.false_eq_true, if_false]
+      have ih := chooseLoopIdx_at f q h w post pre rw
+      have hmap : ∀ o : Option Nat, (o.map (· + 1) = some (pre.length + 1)) ↔ o = some pre.length := by
+        intro o; cases o <;> simp
+      rw [hmap, ih]
+      constructor
+      · rintro ⟨h1, h2, h3⟩
+        refine ⟨h1, h2, ?_⟩
+        rcases h3 with h3 | h3
+        · exact Or.inl h3
+        · refine Or.inr ?_
+          intro e he
+          rcases List.mem_cons.1 he with heq | hin
+          · subst heq; exact hf0'
+          · exact h3 e hin
+      · rintro ⟨h1, h2, h3⟩
+        refine ⟨h1, h2, ?_⟩
+        rcases h3 with h3 | h3
+        · exact Or.inl h3
+        · exact Or.inr (fun e he => h3 e (List.mem_cons_of_mem _ he))
+
+/-! ### selection: one call of `filterAndChooseHost`, then `chooseHost` -/
+
+theorem filter_none_iff (f : Host → Bool) (es : List Entry) (d : Draw) (hv : d.Valid es) :
+    filterAndChooseHost f d = none ↔ ∀ e ∈ es, f e.1 = false := by
+  obtain ⟨h1, h2, hpq⟩ := hv
+  simp only [filterAndChooseHost]
+  rw [totalWeight_perm f h1, ← totalWeight_perm f h2]
+  constructor
+  · intro hn e he
+    cases hfe : f e.1 with
+    | false => rfl
+    | true =>
+      exfalso
+      have hle : ((d.p * totalWeight f d.it2 : Nat) : Int) ≤ ((d.q * totalWeight f d.it2 : Nat) : Int) := by
+        have := Nat.mul_le_mul_right (totalWeight f d.it2) (Nat.le_of_lt hpq)
+        omega
+      exact chooseLoop_some_of_le f d.q d.it2 _ hle ⟨e, h2.mem_iff.2 he, hfe⟩ hn
+  · intro hall
+    exact chooseLoop_none_of_no_eligible f d.q d.it2 _ (fun e he => hall e (h2.mem_iff.1 he))
+
+theorem filter_some_mem (f : Host → Bool) (es : List Entry) (d : Draw) (hv : d.Valid es) (h : Host)
+    (hc : filterAndChooseHost f d = some h) : ∃ w, (h, w) ∈ es ∧ f h = true := by
+  obtain ⟨w, hw, hf⟩ := chooseLoop_mem f d.q d.it2 _ h hc
+  exact ⟨w, hv.2.1.mem_iff.1 hw, hf⟩
+
+theorem filter_some_pos (f : Host → Bool) (es : List Entry) (d : Draw) (hv : d.Valid es) (h : Host)
+    (hp : 0 < d.p) (hex : ∃ e ∈ es, f e.1 = true ∧ 0 < e.2)
+    (hc : filterAndChooseHost f d = some h) : ∃ w, (h, w) ∈ es ∧ f h = true ∧ 0 < w := by
+  have hT : 0 < totalWeight f d.it1 := by
+    rw [totalWeight_perm f hv.1]
+    exact totalWeight_pos_of_exists f es hex
+  have hrw : (0 : Int) < ((d.p * totalWeight f d.it1 : Nat) : Int) := by
+    have := Nat.mul_pos hp hT
+    omega
+  obtain ⟨w, hw, hf, hwp⟩ := chooseLoop_pos f d.q d.it2 _ h hrw hc
+  exact ⟨w, hv.2.1.mem_iff.1 hw, hf, hwp⟩
+
+theorem any_hasScheme (s : Bytes) (es : List Entry) :
+    es.any (Spec.hasScheme s) = true ↔ ∃ e ∈ es, (fun h : Host => h.scheme == s) e.1 = true := by
+  simp [List.any_eq_true, Spec.hasScheme]
+
+theorem topScheme_cons (s0 : Bytes) (rest : List Bytes) (es : List Entry) :
+    Spec.topScheme (s0 :: rest) es =
+      if es.any (Spec.hasScheme s0) then some s0 else Spec.topScheme rest es := by
+  simp only [Spec.topScheme, List.find?_cons]
+  cases es.any (Spec.hasScheme s0) <;> simp
+
+theorem chooseHostFrom_none (es : List Entry) (env : Nat → Draw) (hv : ∀ k, (env k).Valid es) :
+    ∀ (prio : List Bytes) (k : Nat), Spec.topScheme prio es = none → chooseHostFrom env prio k = none
+  | [], _, _ => rfl
+  | s0 :: rest, k, ht => by
+    rw [topScheme_cons] at ht
+    cases hany : es.any (Spec.hasScheme s0) with
+    | true => simp [hany] at ht
+    | false =>
+      simp only [hany, Bool.false_eq_true, if_false] at ht
+      have hnone : filterAndChooseHost (fun h => h.scheme == s0) (env k) = none := by
+        rw [filter_none_iff _ es _ (hv k)]
+        intro e he
+        cases hfe : (e.1.scheme == s0) with
+        | false => rfl
+        | true =>
+          have : es.any (Spec.hasScheme s0) = true := (any_hasScheme s0 es).2 ⟨e, he, hfe⟩
+          rw [hany] at this; exact absurd this (by simp)
+      simp only [chooseHostFrom, hnone]
+      exact chooseHostFrom_none es env hv rest (k + 1) ht
+
+theorem chooseHostFrom_some (es : List Entry) (env : Nat → Draw) (hv : ∀ k, (env k).Valid es) (s : Bytes) :
+    ∀ (prio : List Bytes) (k : Nat), Spec.topScheme prio es = some s →
+      ∃ j, chooseHostFrom env prio k = filterAndChooseHost (fun h => h.scheme == s) (env j)
+  | [], _, ht => by simp [Spec.topScheme] at ht
+  | s0 :: rest, k, ht => by
+    rw [topScheme_cons] at ht
+    cases hany : es.any (Spec.hasScheme s0) with
+    | true =>
+      simp only [hany, if_true, Option.some.injEq] at ht
+      subst ht
+      refine ⟨k, ?_⟩
+      simp only [chooseHostFrom]
+      cases hc : filterAndChooseHost (fun h => h.scheme == s0) (env k) with
+      | some h => rfl
+      | none =>
+        exfalso
+        rw [filter_none_iff _ es _ (hv k)] at hc
+        obtain ⟨e, he, hfe⟩ := (any_hasScheme s0 es).1 hany
+        have hfe' : (e.1.scheme == s0) = true := hfe
+        rw [hc e he] at hfe'; exact absurd hfe' (by simp)
+    | false =>
+      simp only [hany, Bool.false_eq_true, if_false] at ht
+      have hnone : filterAndChooseHost (fun h => h.scheme == s0) (env k) = none := by
+        rw [filter_none_iff _ es _ (hv k)]
+        intro e he
+        cases hfe : (e.1.scheme == s0) with
+        | false => rfl
+        | true =>
+          have : es.any (Spec.hasScheme s0) = true := (any_hasScheme s0 es).2 ⟨e, he, hfe⟩
+          rw [hany] at this; exact absurd this (by simp)
+      simp only [chooseHostFrom, hnone]
+      exact chooseHostFrom_some es env hv s rest (k + 1) ht
+
+theorem topScheme_some_any (prio : List Bytes) (es : List Entry) (s : Bytes)
+    (h : Spec.topScheme prio es = some s) : s ∈ prio ∧ es.any (Spec.hasScheme s) = true := by
+  simp only [Spec.topScheme] at h
+  exact ⟨List.mem_of_find?_eq_some h, List.find?_some (p := fun s => es.any (Spec.hasScheme s)) h⟩
+
+/-- `chooseHost` is one call of `filterAndChooseHost` with the filter the specification names -/
+theorem chooseHost_reduces (es : List Entry) (env : Nat → Draw) (hv : ∀ k, (env k).Valid es)
+    (prio : List Bytes) :
+    (prio = [] ∧ chooseHost prio env = filterAndChooseHost (fun _ => true) (env 0)) ∨
+    (prio ≠ [] ∧ Spec.topScheme prio es = none ∧ chooseHost prio env = none) ∨
+    (prio ≠ [] ∧ ∃ s j, Spec.topScheme prio es = some s ∧
+      chooseHost prio env = filterAndChooseHost (fun h => h.scheme == s) (env j)) := by
+  cases prio with
+  | nil => left; exact ⟨rfl, by simp [chooseHost]⟩
+  | cons s0 rest =>
+    right
+    have hne : (s0 :: rest) ≠ [] := by simp
+    have hch : chooseHost (s0 :: rest) env = chooseHostFrom env (s0 :: rest) 0 := by
+      simp [chooseHost]
+    cases ht : Spec.topScheme (s0 :: rest) es with
+    | none => left; exact ⟨hne, rfl, by rw [hch]; exact chooseHostFrom_none es env hv _ 0 ht⟩
+    | some s =>
+      right
+      obtain ⟨j, hj⟩ := chooseHostFrom_some es env hv s _ 0 ht
+      exact ⟨hne, s, j, rfl, by rw [hch]; exact hj⟩
+
 end Restli.D2
